@@ -123,6 +123,119 @@ class ClassInfo:
         return f"<Class {self.qualname}>"
 
 
+_LOG_ROOTS = {"logger", "logging", "log", "LOGGER", "_logger"}
+
+
+def _is_noise(st, first):
+    """Statements that cannot affect any property: a bare constant expression that is not a docstring, and calls on a logger
+    (`logger.debug(...)`, `logging.info(...)`, `logging.getLogger(..).warning(...)`).  They are dropped from statement lists
+    before any rule runs so that no rule depends on statement adjacency / positions across a log line."""
+    if not isinstance(st, ast.Expr):
+        return False
+    v = st.value
+    if isinstance(v, ast.Constant):
+        return not (first and isinstance(v.value, str))
+    if isinstance(v, ast.Call) and isinstance(v.func, ast.Attribute) and v.func.attr in ("debug", "info", "warning", "error", "critical", "exception"):
+        r = v.func.value
+        while isinstance(r, (ast.Attribute, ast.Call)):
+            r = r.value if isinstance(r, ast.Attribute) else r.func
+        return isinstance(r, ast.Name) and r.id in _LOG_ROOTS
+    return False
+
+
+def _drop_noise(tree):
+    for node in ast.walk(tree):
+        for f in ("body", "orelse", "finalbody"):
+            lst = getattr(node, f, None)
+            if isinstance(lst, list) and lst and isinstance(lst[0], ast.stmt):
+                isdef = isinstance(node, (ast.FunctionDef, ast.AsyncFunctionDef, ast.ClassDef, ast.Module))
+                kept = [st for i, st in enumerate(lst) if not _is_noise(st, first=(i == 0 and isdef and f == "body"))]
+                if not kept:
+                    kept = [ast.copy_location(ast.Pass(), lst[0])]
+                lst[:] = kept
+
+
+def _canon_compare(tree):
+    """E0 normalisation: a single `a > b` / `a >= b` is stored as `b < a` / `b <= a` (rules see one orientation only)."""
+    for n in ast.walk(tree):
+        if isinstance(n, ast.Compare) and len(n.ops) == 1 and isinstance(n.ops[0], (ast.Gt, ast.GtE)):
+            n.left, n.comparators = n.comparators[0], [n.left]
+            n.ops = [ast.Lt() if isinstance(n.ops[0], ast.Gt) else ast.LtE()]
+
+
+def _module_literals(tree):
+    """Module-level names bound exactly once, at top level, to a numeric literal (never rebound, never declared global)."""
+    counts, vals = {}, {}
+    for st in tree.body:
+        tg = []
+        if isinstance(st, ast.Assign):
+            tg = [t for t in st.targets]
+        elif isinstance(st, (ast.AugAssign, ast.AnnAssign)):
+            tg = [st.target]
+        for t in tg:
+            for n in ast.walk(t):
+                if isinstance(n, ast.Name):
+                    counts[n.id] = counts.get(n.id, 0) + 1
+        if isinstance(st, ast.Assign) and len(st.targets) == 1 and isinstance(st.targets[0], ast.Name):
+            v = st.value
+            neg = isinstance(v, ast.UnaryOp) and isinstance(v.op, ast.USub)
+            c = v.operand if neg else v
+            if isinstance(c, ast.Constant) and type(c.value) in (int, float):
+                vals[st.targets[0].id] = v
+    for n in ast.walk(tree):
+        if isinstance(n, (ast.Global, ast.Nonlocal)):
+            for x in n.names:
+                counts[x] = 99
+        if isinstance(n, (ast.For, ast.comprehension)) or isinstance(n, ast.With):
+            pass
+    # any other store to the name anywhere at module level (for targets, with, imports) disqualifies it
+    for st in tree.body:
+        if not isinstance(st, (ast.FunctionDef, ast.AsyncFunctionDef, ast.ClassDef, ast.Assign)):
+            for n in ast.walk(st):
+                if isinstance(n, ast.Name) and isinstance(n.ctx, ast.Store):
+                    counts[n.id] = 99
+    return {k: v for k, v in vals.items() if counts.get(k) == 1}
+
+
+class _InlineLits(ast.NodeTransformer):
+    """Constant propagation of single-assignment numeric module constants into function bodies (E0 normalisation): a literal
+    hoisted into a module constant, here or in a module it is imported from, is the same program for every rule."""
+
+    def __init__(self, lits):
+        self.lits = lits
+        self.shadow = [set()]
+
+    def _fn(self, fn):
+        a = fn.args
+        sh = {x.arg for x in a.posonlyargs + a.args + a.kwonlyargs}
+        if a.vararg:
+            sh.add(a.vararg.arg)
+        if a.kwarg:
+            sh.add(a.kwarg.arg)
+        body = fn.body if isinstance(fn.body, list) else [fn.body]
+        for b in body:
+            for n in ast.walk(b):
+                if isinstance(n, ast.Name) and isinstance(n.ctx, (ast.Store, ast.Del)):
+                    sh.add(n.id)
+                elif isinstance(n, (ast.Import, ast.ImportFrom)):
+                    sh |= {(x.asname or x.name).split(".")[0] for x in n.names}
+        self.shadow.append(self.shadow[-1] | sh)
+        self.generic_visit(fn)
+        self.shadow.pop()
+        return fn
+
+    visit_FunctionDef = visit_AsyncFunctionDef = visit_Lambda = _fn
+
+    def visit_Name(self, n):
+        if isinstance(n.ctx, ast.Load) and len(self.shadow) > 1 and n.id in self.lits and n.id not in self.shadow[-1]:
+            import copy
+            new = copy.deepcopy(self.lits[n.id])
+            for x in ast.walk(new):
+                ast.copy_location(x, n)
+            return new
+        return n
+
+
 class Module:
     def __init__(self, name, path, relpath):
         self.name = name
@@ -133,6 +246,11 @@ class Module:
             self.tree = ast.parse(self.src, filename=path)
         except SyntaxError as e:
             raise AnalysisError(f"cannot parse {relpath}: {e}")
+        _drop_noise(self.tree)
+        _canon_compare(self.tree)
+        self.literals = _module_literals(self.tree)
+        if self.literals:
+            _InlineLits(self.literals).visit(self.tree)
         self.imports = {}   # local name -> (module name, attr or None)
         self.funcs = {}
         self.classes = {}
@@ -232,6 +350,18 @@ class Repo:
                     if name.endswith(".__init__"):
                         name = name[: -len(".__init__")]
                     self.modules[name] = Module(name, path, rel)
+        # numeric module constants imported from another module of the package are inlined too
+        for m in self.modules.values():
+            ext = {}
+            for local, (mod, attr) in m.imports.items():
+                src = self.modules.get(mod)
+                if src is not None and attr and attr in src.literals and local not in m.literals:
+                    ext[local] = src.literals[attr]
+            if ext:
+                _InlineLits(ext).visit(m.tree)
+                for n in ast.walk(m.tree):
+                    for c in ast.iter_child_nodes(n):
+                        c._parent = n
         ypath = os.path.join(pkgdir, "core", "attributes.yml")
         if not os.path.exists(ypath):
             raise AnalysisError("wavespectra/core/attributes.yml vanished")
